@@ -464,5 +464,10 @@ def run(ctx):
     for inst_, v_ in sorted(_c20r.report_read_sites(db, rep).items()):
         r6.check(v_[0], inst_, v_[1], v_[2], v_[3])
     r6.expect_min(2)
+    r7 = rep.rule('C18.7-file-names', 'R-TABLE', 'fmtqfn(): the path qmail-clean unlinks for a validated request is dir/(id mod split)/id of exactly the number named, for message numbers up to 2^64-1 (the bucket is computed on the whole number)')
+    from rules import libtab as _ltq
+    for inst_, v_ in sorted(_ltq.fmtqfn_sites(db, rep, db.program('qmail-clean')).items()):
+        r7.check(v_[0], inst_, v_[1], v_[2], v_[3])
+    r7.expect_min(1)
     rep.assume('getln(...,&match,0) with match set returns a buffer whose last byte is the separator',
                'memcmp/scan_ulong/fmtqfn have their documented meaning', 'plain char is signed (x86-64 Linux)')
